@@ -205,6 +205,8 @@ MSGS = {
     "The LEF NAMESCASESENSITIVE option is invalid for LEF versions > 5.4": "MsgNamesCase",
     "The Lef MACRO's SOURCE field is invalid for LEF versions > 5.4": "MsgSource",
     "Unexpected token while parsing PROPERTY, must be string/number/name": "MsgProperty",
+    "The LEF NOWIREEXTENSIONATPIN option is invalid for LEF versions > 5.4": "MsgNoWire",
+    "The LEF VERSION statement may appear only once": "MsgVersionTwice",
 }
 
 def err_to_coq(e):
@@ -553,4 +555,6 @@ def _model_cfg():
     flag('{Site} {site.name} ; "' in ws and '{site.class};"' in ws, '{Site} {site.name} "' in ws and '{site.class} ;"' in ws and '{End} {site.name} "' in ws, "write_site punctuation")
     wp = _fn_body(wr, "write_property") or ""
     flag('"{Property} {} {}"' in wp, '"{Property} {} {} ;"' in wp, "write_property terminator")
+    pl2 = _fn_body(rd, "parse_lib") or ""
+    flag("LefKey::Version => lib.version(self.parse_version()?)" in pl2, "has_version = true" in pl2 and "may appear only once" in pl2, "repeated VERSION statement in the reader")
     return "(mkcfg %s)" % " ".join(flags)
